@@ -187,6 +187,16 @@ func checkInstant(c dateCase) string {
 			if tz.Location().String() != to.String() {
 				return fmt.Sprintf("useTimezone(%s, %q) is in zone %s", what, c.To, tz.Location())
 			}
+			wantIn := t0.In(to)
+			o2 := evalWith(fmt.Sprintf("[timeFormat(useTimezone(t, '%s'), 'MST -0700'), millSecond(addDate(useTimezone(t, '%s'), 0, 6, 0))]", c.To, c.To), data)
+			if a2, ok := o2.Val.([]interface{}); o2.Err == nil && ok && len(a2) == 2 {
+				if s, _ := a2[0].(string); s != wantIn.Format("MST -0700") {
+					return fmt.Sprintf("timeFormat(useTimezone(%s, %q), 'MST -0700') = %q, want %q", what, c.To, s, wantIn.Format("MST -0700"))
+				}
+				if ms, ok := obs.Int(a2[1]); (!ok || ms != wantIn.AddDate(0, 6, 0).UnixMilli()) && !nearTransition(wantIn.AddDate(0, 6, 0), 26*time.Hour) && wantIn.Year() < 9000 {
+					return fmt.Sprintf("millSecond(addDate(useTimezone(%s, %q), 0, 6, 0)) = %s, want %d (civil shift in the new zone)", what, c.To, obs.Show(a2[1]), wantIn.AddDate(0, 6, 0).UnixMilli())
+				}
+			}
 			arr, em := evalArr(fmt.Sprintf("[millSecond(useTimezone(t, '%s')), hour(useTimezone(t, '%s')), minute(useTimezone(t, '%s')), day(useTimezone(t, '%s'))]", c.To, c.To, c.To, c.To), data)
 			if em != "" {
 				return em
@@ -271,7 +281,9 @@ func init() {
 	})
 }
 
-var c19Zones = []string{"UTC", "Asia/Shanghai", "Asia/Kolkata", "America/New_York", "Europe/Berlin", "Australia/Lord_Howe", "Pacific/Kiritimati"}
+var c19Zones = []string{"UTC", "Asia/Shanghai", "Asia/Kolkata", "America/New_York", "Europe/Berlin", "Australia/Lord_Howe", "Pacific/Kiritimati",
+	// zones whose offset coincides with another zone of the list for part or all of the year
+	"Europe/London", "Africa/Lagos", "Asia/Singapore", "America/Toronto", "Asia/Colombo", "Etc/GMT-14", "Atlantic/Reykjavik"}
 
 func dateNontrivial(c dateCase) bool {
 	return c.M < 1 || c.M > 12 || c.D < 1 || c.D > 28 || c.Y < 1678 || c.Y > 2262 || (c.M == 2 && c.D >= 28)
